@@ -142,6 +142,7 @@ def run(tier: str, seed: int, rep: Report, model: Model) -> dict:
                     tasks.append({"cls": cls, "lib": lib, "dt": dt})
     rep.rule = ("every exported tensor class x every dtype kind numpy / torch / jax can put on an array here (bool, ints, f16/32/64, bf16, "
                 "float8 variants, long double, complex, str); exhaustive; distinct = (class, library, dtype); non-trivial = class is not TensorTypeBase")
+    rep.rule += '; plus every numpy spelling of every dtype (typecodes, C names, byte-swapped) x every class, and user-defined tensor classes (own DTYPES, two classes of one __name__, call and subscript)'
     rep.exhaustive = True
     reqs = [f"(dtype ({' '.join(I.class_dtoks(t['cls']))}) {t['lib']} {t['dt']})" for t in tasks]
     answers = model.ask_many(reqs)
